@@ -526,7 +526,8 @@ func genHistoryCases(g *G, n int, maxRounds int, tag string) {
 			obs, honest := w.round(plan, []int{1, 2, 3, 4, 5})
 			rounds = append(rounds, J{"obs": obs, "honest": honest})
 		}
-		g.Emit(J{"op": "llo.history", "cfg": w.cfgJ(), "startSeqNr": 1, "rounds": rounds, "attestations": w.attestations(), "telemetry": g.R.Intn(3) == 0}, tag, "f="+S(w.f), "version="+S(w.version), "rounds="+S(nr))
+		// every second history runs with report codecs that refuse a report lacking a value, like the real ones
+		g.Emit(J{"op": "llo.history", "cfg": w.cfgJ(), "startSeqNr": 1, "rounds": rounds, "attestations": w.attestations(), "telemetry": g.R.Intn(3) == 0, "strictCodec": i%2 == 1}, tag, "f="+S(w.f), "version="+S(w.version), "rounds="+S(nr))
 	}
 }
 
